@@ -1264,3 +1264,324 @@ class C10Oracle(Oracle):
                 self.rep(f"core_recompute:{k}", f"after re-enabling {k}: {mm}")
                 return
             self.col.event("core_toggle")
+
+
+# ========================================================================================
+# C16: read-only operations do not modify the tracks
+# ========================================================================================
+RO_OPS = ["export_csv", "export_csv_display", "export_csv_subset", "export_csv_seg", "export_geff",
+          "export_geff_subset", "export_geff_v3", "save_tracks", "queries_track", "queries_graph",
+          "queries_attrs", "deprecated_export_tracks"]
+
+
+class C16Oracle(Oracle):
+    extra_ops = {"ro": 6}
+
+    def gen_extra(self, kind, rnd):
+        from .world import _pick
+
+        name = _pick(rnd, RO_OPS)
+        nodes = self.w.nodes()
+        subset = sorted({_pick(rnd, nodes) for _ in range(rnd.randint(1, 3))}) if nodes else []
+        return {"op": "ro", "name": name, "subset": subset, "t": rnd.randint(-1, self.w.frames),
+                "tid": rnd.randint(0, 12)}
+
+    def apply_extra(self, op, out):
+        import shutil
+        import tempfile
+        from pathlib import Path
+
+        w = self.w
+        tr = w.tracks
+        name = op["name"]
+        if name.startswith("export_csv_seg") and tr.segmentation is None:
+            name = "export_csv"
+        if not w.nodes() and name.startswith("export"):
+            out.info["skipped"] = True
+            return
+        before = C.full_snapshot(tr)
+        tmp = Path(tempfile.mkdtemp(prefix="verif-c16-"))
+        ok, r = _safe(lambda: self._run(name, op, tmp))
+        shutil.rmtree(tmp, ignore_errors=True)
+        after = C.full_snapshot(tr)
+        d = C.full_diff(before, after)
+        scale_tag = "scale=None" if before["scale"] is None else "scale=given"
+        self.col.event(f"ro:{name}:{'ok' if ok else 'raised'}")
+        if not ok:
+            out.info["ro_exception"] = repr(r)
+        if d:
+            self.rep(f"modified_by:{name}", f"read-only operation {name} ({scale_tag}, subset={op['subset']}) changed the tracks: {d}")
+            return
+        if len(w.edges()) >= 1:
+            self.col.nontrivial_case((name, scale_tag, w.cfg["seg"], w.ndim, w.cfg["pos_mode"], bool(op["subset"]),
+                                      min(len(tr.action_history.undo_stack), 3)))
+
+    def _run(self, name, op, tmp):
+        from funtracks.import_export import export_to_csv, export_to_geff, save_tracks
+
+        tr = self.w.tracks
+        subset = set(op["subset"]) & set(self.w.nodes())
+        if name == "export_csv":
+            export_to_csv(tr, tmp / "a.csv")
+        elif name == "export_csv_display":
+            export_to_csv(tr, tmp / "a.csv", use_display_names=True)
+        elif name == "export_csv_subset":
+            export_to_csv(tr, tmp / "a.csv", node_ids=subset)
+        elif name == "export_csv_seg":
+            export_to_csv(tr, tmp / "a.csv", export_seg=True, seg_path=tmp / "seg.tif")
+        elif name == "export_geff":
+            export_to_geff(tr, tmp / "g")
+        elif name == "export_geff_subset":
+            export_to_geff(tr, tmp / "g", node_ids=subset)
+        elif name == "export_geff_v3":
+            export_to_geff(tr, tmp / "g", zarr_format=3)
+        elif name == "save_tracks":
+            save_tracks(tr, tmp / "s")
+        elif name == "deprecated_export_tracks":
+            tr.export_tracks(tmp / "d.csv")
+        elif name == "queries_track":
+            for tid in {op["tid"], *self.w.track_ids()[:3]}:
+                tr.get_track_neighbors(tid, op["t"])
+                tr.has_track_id_at_time(tid, op["t"])
+            tr.get_next_track_id()
+            tr.get_next_lineage_id()
+            _ = tr.max_track_id
+            _ = dict(tr.track_id_to_node)
+        elif name == "queries_graph":
+            ns = tr.nodes()
+            tr.edges()
+            tr.in_degree()
+            tr.out_degree()
+            if len(ns):
+                tr.in_degree(ns)
+                tr.out_degree(ns)
+            for n in self.w.nodes()[:4]:
+                tr.predecessors(n)
+                tr.successors(n)
+            tr.get_available_features()
+        elif name == "queries_attrs":
+            ns = self.w.nodes()
+            if ns:
+                tr.get_positions(ns)
+                tr.get_positions(ns, incl_time=True)
+                tr.get_position(ns[0], incl_time=True)
+                tr.get_times(ns)
+                tr.get_time(ns[0])
+                tr.get_pixels(ns[-1])
+                tr.get_track_id(ns[0])
+                tr.get_lineage_id(ns[0])
+                tr.get_nodes_attr(ns, CUSTOM_NODE)
+                tr.get_node_attr(ns[0], "nope")
+            for e in self.w.edges()[:3]:
+                tr.get_edge_attr(e, "iou")
+                tr.get_edges_attr([e], "ew")
+        else:
+            raise AssertionError(name)
+
+
+# ========================================================================================
+# C14: export o import = identity
+# ========================================================================================
+class C14Oracle(Oracle):
+    extra_ops = {"roundtrip": 3}
+
+    def start(self):
+        self._edits = 0
+
+    def after(self, op, out, pre, post):
+        if op["op"] in EDIT_OPS and out.ok and not out.info.get("noop"):
+            self._edits += 1
+
+    def gen_extra(self, kind, rnd):
+        return {"op": "roundtrip", "fmt": rnd.choice(["csv", "geff", "internal", "geff", "csv_display_skip"][:4]),
+                "zarr": rnd.choice([2, 2, 3])}
+
+    def finish(self):
+        from .world import Outcome
+
+        for fmt in ("csv", "geff", "internal"):
+            if not self.w.trace or self.w.trace[-1].get("fmt") != fmt:
+                self.col.evaluation()
+                self.apply_extra({"op": "roundtrip", "fmt": fmt, "zarr": 2}, Outcome(ok=True))
+
+    # ---- helpers -----------------------------------------------------------------------
+    def _positions_on_labels(self) -> bool:
+        """import validates that the (scaled, truncated) position of the last node lies on its
+        label: with a non-convex mask this is refused by design."""
+        w = self.w
+        tr = w.tracks
+        scale = [1.0] * w.ndim if tr.scale is None else list(tr.scale)
+        for n in w.nodes():
+            pos = tr.get_position(n)
+            idx = tuple(int(c / s) for c, s in zip(pos, scale[1:]))
+            if any(i < 0 or i >= m for i, m in zip(idx, w.shape)):
+                return False
+            if tr.segmentation[w.time(n)][idx] != n:
+                return False
+        return True
+
+    def _shape_desc(self):
+        w = self.w
+        g = w.tracks.graph
+        div = sum(1 for n in g if g.out_degree(n) == 2)
+        skip = sum(1 for u, v in g.edges if w.time(v) - w.time(u) > 1)
+        iso = sum(1 for n in g if g.degree(n) == 0)
+        ids = w.nodes()
+        noncontig = bool(ids) and ids != list(range(1, len(ids) + 1))
+        return (min(div, 2), min(skip, 2), min(iso, 2), noncontig, min(len(ids), 6))
+
+    def apply_extra(self, op, out):
+        import shutil
+        import tempfile
+        from pathlib import Path
+
+        w = self.w
+        if not w.nodes():
+            self.col.exclude("roundtrip_of_empty_tracks")
+            return
+        fmt = op["fmt"]
+        tmp = Path(tempfile.mkdtemp(prefix="verif-c14-"))
+        try:
+            ok, r = _safe(lambda: getattr(self, f"_rt_{fmt}")(tmp, op))
+        finally:
+            shutil.rmtree(tmp, ignore_errors=True)
+        if not ok:
+            self.rep(f"roundtrip_raised:{fmt}:{type(r).__name__}", f"{fmt} round trip raised {r!r} (after {self._edits} edits)")
+            return
+        if r:
+            self.rep(f"roundtrip_mismatch:{fmt}:{r[0]}", f"{fmt} round trip (after {self._edits} edits): {r[1]}")
+            return
+        self.col.event(f"roundtrip:{fmt}")
+        desc = self._shape_desc()
+        if (len(w.edges()) >= 1 and self._edits >= 1) or desc[0] or desc[1] or desc[2] or desc[3]:
+            self.col.nontrivial_case((fmt, w.cfg["seg"], w.ndim, w.cfg["pos_mode"], w.tracks.scale is None,
+                                      desc, min(self._edits, 3)))
+            if self._edits:
+                self.col.event("roundtrip_after_edits")
+
+    def _compare_basic(self, imp, check_lineage, pos_exact=False):
+        """nodes, edges, time, position, track ids (and lineage ids) of an imported solution."""
+        w = self.w
+        tr = w.tracks
+        a_nodes = set(w.nodes())
+        b_nodes = {int(n) for n in imp.graph.nodes}
+        if a_nodes != b_nodes:
+            return ("nodes", f"nodes {sorted(b_nodes)} != {sorted(a_nodes)}")
+        b_edges = {(int(u), int(v)) for u, v in imp.graph.edges}
+        if set(w.edges()) != b_edges:
+            return ("edges", f"edges {sorted(b_edges)} != {w.edges()}")
+        for n in a_nodes:
+            if int(imp.get_time(n)) != w.time(n):
+                return ("time", f"node {n}: time {imp.get_time(n)} != {w.time(n)}")
+            pa, pb = tr.get_position(n), imp.get_position(n)
+            if not refs.close(pa, pb, rtol=1e-9 if not pos_exact else 0, atol=1e-9):
+                return ("position", f"node {n}: position {pb} != {pa}")
+            if int(imp.get_track_id(n)) != int(tr.get_track_id(n)):
+                return ("track_id", f"node {n}: track id {imp.get_track_id(n)} != {tr.get_track_id(n)}")
+            if check_lineage and tr.get_lineage_id(n) is not None:
+                lb = imp.get_lineage_id(n)
+                if lb is None or int(lb) != int(tr.get_lineage_id(n)):
+                    return ("lineage_id", f"node {n}: lineage id {lb} != {tr.get_lineage_id(n)}")
+        return None
+
+    def _rt_csv(self, tmp, op):
+        import pandas as pd
+
+        from funtracks.import_export import export_to_csv, tracks_from_df
+
+        w = self.w
+        tr = w.tracks
+        export_to_csv(tr, tmp / "t.csv")
+        df = pd.read_csv(tmp / "t.csv")
+        axes = ["z", "y", "x"][-(w.ndim - 1):]
+        nm = {"time": "t", "pos": axes, "id": "id", "parent_id": "parent_id", "track_id": "track_id"}
+        seg = None
+        if tr.segmentation is not None and self._positions_on_labels():
+            seg = tr.segmentation.copy()
+        elif tr.segmentation is not None:
+            self.col.exclude("csv_with_seg:position_not_on_label")
+        with warnings.catch_warnings():
+            warnings.simplefilter("ignore")
+            imp = tracks_from_df(df, segmentation=seg, scale=None if tr.scale is None else list(tr.scale),
+                                 node_name_map=nm)
+        bad = self._compare_basic(imp, check_lineage=False)
+        if bad:
+            return bad
+        if seg is not None and not np.array_equal(np.asarray(imp.segmentation).astype(np.int64), tr.segmentation.astype(np.int64)):
+            return ("segmentation", "segmentation differs after CSV import")
+        return None
+
+    def _rt_geff(self, tmp, op):
+        from funtracks.import_export import export_to_geff, import_from_geff
+
+        w = self.w
+        tr = w.tracks
+        export_to_geff(tr, tmp / "g", zarr_format=op.get("zarr", 2))
+        pk = w.pos_key
+        axes = list(pk) if isinstance(pk, list) else ["z", "y", "x"][-(w.ndim - 1):]
+        nm = {"time": w.time_key, "pos": axes, "track_id": w.tkey}
+        if w.lkey:
+            nm["lineage_id"] = w.lkey
+        g = tr.graph
+        have_score = [n for n in g if g.nodes[n].get(CUSTOM_NODE) is not None]
+        node_features = {}
+        if have_score:
+            nm[CUSTOM_NODE] = CUSTOM_NODE
+            node_features[CUSTOM_NODE] = False
+        seg_path = None
+        loaded = []
+        if tr.segmentation is not None:
+            if self._positions_on_labels():
+                seg_path = tmp / "g" / "segmentation"
+                for k in ("area", "ellipse_axis_radii", "circularity", "perimeter"):
+                    if k in tr.features:
+                        node_features[k] = False
+                        loaded.append(k)
+            else:
+                self.col.exclude("geff_with_seg:position_not_on_label")
+        scale = [1.0] * w.ndim if tr.scale is None else list(tr.scale)
+        with warnings.catch_warnings():
+            warnings.simplefilter("ignore")
+            imp = import_from_geff(tmp / "g" / "tracks", node_name_map=nm, segmentation_path=seg_path,
+                                   scale=scale, node_features=node_features or None)
+        bad = self._compare_basic(imp, check_lineage=True)
+        if bad:
+            return bad
+        for n in have_score:
+            if not refs.close(imp.graph.nodes[n].get(CUSTOM_NODE), g.nodes[n][CUSTOM_NODE], rtol=0, atol=0):
+                return ("custom_feature", f"node {n}: score {imp.graph.nodes[n].get(CUSTOM_NODE)} != {g.nodes[n][CUSTOM_NODE]}")
+        for k in loaded:
+            for n in g:
+                if not refs.close(C.norm(imp.graph.nodes[n].get(k)), C.norm(g.nodes[n].get(k))):
+                    return ("loaded_feature", f"node {n}: {k} {imp.graph.nodes[n].get(k)} != {g.nodes[n].get(k)}")
+        for (u, v) in w.edges():
+            for k in ("iou", "ew"):
+                a = g.edges[u, v].get(k)
+                if a is not None and k in tr.features:
+                    b = imp.graph.edges[u, v].get(k)
+                    if not refs.close(a, b):
+                        return ("edge_feature", f"edge ({u},{v}): {k} {b} != {a}")
+        if seg_path is not None and not np.array_equal(np.asarray(imp.segmentation).astype(np.int64), tr.segmentation.astype(np.int64)):
+            return ("segmentation", "segmentation differs after GEFF import")
+        return None
+
+    def _rt_internal(self, tmp, op):
+        from funtracks.import_export import load_tracks, save_tracks
+
+        tr = self.w.tracks
+        save_tracks(tr, tmp / "s")
+        with warnings.catch_warnings():
+            warnings.simplefilter("ignore")
+            imp = load_tracks(tmp / "s", solution=True)
+        d = C.canon_diff(C.canon(tr), C.canon(imp), float_keys=set())
+        if d:
+            return ("state", d)
+        if C.norm(tr.scale) != C.norm(imp.scale):
+            return ("scale", f"scale {imp.scale!r} != {tr.scale!r}")
+        ra, rb = C.registry(tr), C.registry(imp)
+        if ra != rb:
+            k = next(k for k in ra if ra[k] != rb[k])
+            return ("registry", f"registry {k}: {rb[k]!r} != {ra[k]!r}")
+        if C.lookups(tr) != C.lookups(imp):
+            return ("lookups", f"lookups {C.lookups(imp)} != {C.lookups(tr)}")
+        return None
